@@ -227,7 +227,8 @@ def run_case(ctx, tag: str, case: dict, phase_list: List[dict],
                 w = json.load(f)
             results[-1]['world_jobs'] = {
                 k: {'state': j['state'], 'emitted': j['emitted'],
-                    'launches': j['launch_count']}
+                    'launches': j['launch_count'],
+                    'started': j.get('started', False)}
                 for k, j in w['jobs'].items()}
             results[-1]['launch_log'] = w['launch_log']
         except (OSError, ValueError):
